@@ -480,6 +480,130 @@ Fixpoint delivered_p (w : rworld) (Z : list N) (c : list rblock) : list retx :=
   end.
 Definition pending_for_p (w : rworld) (Z : list N) (c : list rblock) : list retx := collect_list w PRIME_CTX Z PRIME_CTX c.
 
+(* ------------------------------------------------------------------ (e) recovery of a missed bundle *)
+
+(* What happens when the bundle of a manifest entry is NOT in the store (headerchain.go:CollectSubRollup,
+   the else branches; slice.go:GetPEtxRollupAfterRetryThreshold / GetPEtxAfterRetryThreshold,
+   GetPendingEtxsRollupFromSub / GetPendingEtxsFromSub, AddPendingEtxsRollup / HeaderChain.AddPendingEtxs).
+   A bundle is (name of its header's hash, content).  The header named h commits to `cm h`, the names
+   of the ETXs in order (EtxRollupHash for a region block seen by prime, OutboundEtxHash for a zone
+   block seen by a region; hashes are names, so a commitment is the list it is the hash of). *)
+Definition bundle := (N * list retx)%type.
+
+Definition assoc {A : Type} (l : list (N * A)) (k : N) : option A :=
+  option_map snd (find (fun p => fst p =? k) l).
+Fixpoint set_assoc {A : Type} (l : list (N * A)) (k : N) (v : A) : list (N * A) :=
+  match l with
+  | [] => [(k, v)]
+  | p :: t => if fst p =? k then (k, v) :: t else p :: set_assoc t k v
+  end.
+
+(* the node's state: the store, and the retry counter per block hash (Slice.pEtxRetryCache; the 10-entry
+   LRU bound of that cache is not modelled: the tie keeps the number of keys below it) *)
+Record fstate := mkFS { fs_world : rworld; fs_retries : list (N * N) }.
+
+Section Recovery.
+Variable cm : list (N * list N).
+Variable T : N.                            (* c_pEtxRetryThreshold *)
+
+(* PendingEtxs.IsValid / PendingEtxsRollup.IsValid, "|| IsGenesisHash(header hash)" *)
+Definition bundle_valid (w : rworld) (b : bundle) : bool :=
+  match assoc cm (fst b) with
+  | Some c => ns_eqb (map retx_id (snd b)) c
+  | None => false
+  end || is_genesis w (fst b).
+
+(* AddPendingEtxs / AddPendingEtxsRollup: refuse an invalid bundle; store a valid one unless an entry of
+   that header is known already *)
+Definition add_validated (w : rworld) (b : bundle) : rworld :=
+  if bundle_valid w b then
+    match lookup_pending w (fst b) with
+    | Some _ => w
+    | None => mkRW (rw_genesis w) (rw_blocks w) (rw_pending w ++ [b])
+    end
+  else w.
+
+(* hc.fetchPEtxRollup(b.Hash(), hash, ..) = GetPEtx(Rollup)AfterRetryThreshold: below the threshold count
+   the failure; from the threshold on ask the subordinate, whose answer (any bundle, or an error) goes
+   through the validated add.  The RETURN VALUE is dropped by CollectSubRollup: only the state changes. *)
+Definition fetch (answers : list (N * bundle)) (st : fstate) (key h : N) : fstate :=
+  match assoc (fs_retries st) key with
+  | None => mkFS (fs_world st) (set_assoc (fs_retries st) key 0)
+  | Some r =>
+      if r <? T then mkFS (fs_world st) (set_assoc (fs_retries st) key (r + 1))
+      else match assoc answers h with
+           | Some b => mkFS (add_validated (fs_world st) b) (fs_retries st)
+           | None => st
+           end
+  end.
+
+(* CollectSubRollup with its side effect; key = hash of the block whose manifest is m *)
+Fixpoint sub_rollup_f (answers : list (N * bundle)) (st : fstate) (key : N) (m : list N) (acc : list retx)
+  : fstate * option (list retx) :=
+  match m with
+  | [] => (st, Some acc)
+  | h :: m' =>
+      match lookup_pending (fs_world st) h with
+      | Some l => sub_rollup_f answers st key m' (acc ++ l)
+      | None => (fetch answers st key h, None)
+      end
+  end.
+
+(* CollectNewlyConfirmedEtxs, the loop, threading the state (the memo of successful sub rollups is
+   transparent: entries of the store never change) *)
+Fixpoint nc_walk_f (answers : list (N * bundle)) (fuel : nat) (st : fstate) (ctx : N) (loc : list N) (border : N)
+  (cur : rblock) (acc : list retx) : fstate * rres :=
+  match fuel with
+  | O => (st, RFuel)
+  | S f =>
+      match lookup_block (fs_world st) (rb_parent cur) with
+      | None => (st, RErrParent)
+      | Some p =>
+          if is_genesis (fs_world st) (rb_parent cur) then (st, ROk acc)
+          else if walk_stops ctx loc p then (st, ROk acc)
+          else match sub_rollup_f answers st (rb_hash p) (rb_manifest p) [] with
+               | (st', None) => (st', RErrPending)
+               | (st', Some roll) => nc_walk_f answers f st' ctx loc border p (acc ++ rolldown ctx loc p ++ sel ctx loc border roll)
+               end
+      end
+  end.
+
+Definition newly_confirmed_f (answers : list (N * bundle)) (st : fstate) (ctx : N) (b : rblock) (border : N) : fstate * rres :=
+  match sub_rollup_f answers st (rb_hash b) (rb_manifest b) [] with
+  | (st', None) => (st', RErrPending)
+  | (st', Some roll) =>
+      nc_walk_f answers (S (length (rw_blocks (fs_world st)))) st' ctx (rb_loc b) border b (sel ctx (rb_loc b) border roll)
+  end.
+
+(* one call of the node: q = (block, order); order 9 stands for the bare CollectSubRollup *)
+Definition rres_out (r : rres) : N * list N :=
+  match r with
+  | ROk l => (0, map retx_id l)
+  | RErrParent => (1, [])
+  | RErrPending => (2, [])
+  | RFuel => (7, [])
+  end.
+Definition run_round (answers : list (N * bundle)) (ctx : N) (st : fstate) (q : N * N) : fstate * (N * list N) :=
+  match lookup_block (fs_world st) (fst q) with
+  | None => (st, (8, []))
+  | Some b =>
+      if snd q =? 9 then
+        match sub_rollup_f answers st (rb_hash b) (rb_manifest b) [] with
+        | (st', Some l) => (st', (0, map retx_id l))
+        | (st', None) => (st', (2, []))
+        end
+      else let '(st', r) := newly_confirmed_f answers st ctx b (snd q) in (st', rres_out r)
+  end.
+(* a history of calls; the subordinate may answer differently each time *)
+Fixpoint run_rounds (ctx : N) (st : fstate) (rs : list (list (N * bundle) * (N * N))) : fstate * list (N * list N) :=
+  match rs with
+  | [] => (st, [])
+  | (answers, q) :: rs' =>
+      let '(st', o) := run_round answers ctx st q in
+      let '(st'', os) := run_rounds ctx st' rs' in (st'', o :: os)
+  end.
+End Recovery.
+
 (* ------------------------------------------------------------------ correspondence *)
 
 Definition oetx_eqb (a b : option etx) : bool :=
@@ -578,13 +702,22 @@ Inductive case :=
    (names of the ETXs, None = error) and CollectNewlyConfirmedEtxs per (block, order): class
    (0 ok, 1 parent not found, 2 pending ETXs not found) and the names of the ETXs, in order *)
 | CH (id : N) (ctx : N) (gen : list N) (blocks : list rblock) (pend : list (N * list retx))
-     (rollq : list (N * option (list N))) (ncq : list (N * N * N * list N)).
+     (rollq : list (N * option (list N))) (ncq : list (N * N * N * list N))
+(* recovery: a node (ctx) holding blocks and the initial store pend; cm = what each header commits to;
+   answers = what the subordinate sends when asked for a hash (header name, content; absent = error);
+   T = retry threshold; rounds = the calls made, in order: (block, order or 9 for the bare sub rollup,
+   observed class, observed names); final = for each initially missing entry whether the store holds it
+   at the end *)
+| CF (id : N) (ctx : N) (gen : list N) (blocks : list rblock) (pend : list (N * list retx))
+     (cm : list (N * list N)) (answers : list (N * bundle)) (T : N)
+     (rounds : list (N * N * N * list N)) (final : list (N * bool)).
 
 Definition case_id (c : case) : N :=
   match c with
   | CQ i _ _ => i | CB i _ _ _ _ _ _ _ _ _ => i | CR i _ _ _ _ _ => i | CL i _ _ _ => i
   | CC i _ _ _ _ _ _ => i | CV i _ _ _ _ _ _ _ => i
   | CRX i _ _ _ _ => i | CLX i _ _ => i | CH i _ _ _ _ _ _ => i
+  | CF i _ _ _ _ _ _ _ _ _ => i
   end.
 
 Definition rres_code (r : rres) : N * list N :=
@@ -598,6 +731,13 @@ Definition onl_eqb (a b : option (list N)) : bool :=
   match a, b with
   | None, None => true
   | Some x, Some y => ns_eqb x y
+  | _, _ => false
+  end.
+
+Fixpoint outs_eqb (a b : list (N * list N)) : bool :=
+  match a, b with
+  | [], [] => true
+  | x :: a', y :: b' => (fst x =? fst y) && ns_eqb (snd x) (snd y) && outs_eqb a' b'
   | _, _ => false
   end.
 
@@ -632,6 +772,12 @@ Definition case_ok (c : case) : bool :=
                  | None => false
                  | Some b => let '(c, l) := rres_code (newly_confirmed w ctx b order) in (c =? cls) && ns_eqb l ids
                  end) ncq
+  | CF _ ctx gen blocks pend cm answers T rounds final =>
+      let st0 := mkFS (mkRW gen blocks pend) [] in
+      let '(stf, outs) := run_rounds cm T ctx st0 (map (fun q : N * N * N * list N => (answers, (fst (fst (fst q)), snd (fst (fst q))))) rounds) in
+      outs_eqb outs (map (fun q : N * N * N * list N => (snd (fst q), snd q)) rounds)
+      && forallb (fun f : N * bool =>
+                    Bool.eqb (match lookup_pending (fs_world stf) (fst f) with Some _ => true | None => false end) (snd f)) final
   end.
 
 Definition mismatches (cs : list case) : list N :=
